@@ -333,8 +333,68 @@ func fieldOf(t types.Type, i int) *types.Var {
 	return nil
 }
 
+// callCtx: while the trace is inside a callee (following what a call returns), the values the
+// caller passed for the callee's parameters.
+type callCtx struct {
+	fn     *ssa.Function
+	args   []ssa.Value
+	parent *callCtx
+}
+
+func (c *callCtx) inside(f *ssa.Function) bool {
+	for x := c; x != nil; x = x.parent {
+		if x.fn == f {
+			return true
+		}
+	}
+	return false
+}
+
+func mergeTargets(xs []target) target {
+	res := target{local: true}
+	for _, x := range xs {
+		res.local = res.local && x.local
+		res.containers = append(res.containers, x.containers...)
+		if x.fieldType != nil {
+			res.fieldType = x.fieldType
+		}
+		if x.global != "" {
+			res.global = x.global
+		}
+		if x.root != "" {
+			res.root = x.root
+		}
+	}
+	return res
+}
+
+// traceResult: where the idx-th result of a call to a function of the module comes from — every
+// return statement of the callee is followed, and the callee's parameters stand for the caller's
+// arguments (a helper that returns a slice of its receiver's buffer, or a freshly made one).
+func traceResult(call *ssa.Call, idx int, depth int, ctx *callCtx) (target, bool) {
+	callee := call.Call.StaticCallee()
+	if callee == nil || len(callee.Blocks) == 0 || ctx.inside(callee) || depth > 30 {
+		return target{}, false
+	}
+	inner := &callCtx{fn: callee, args: call.Call.Args, parent: ctx}
+	outs := []target{}
+	for _, b := range callee.Blocks {
+		for _, ins := range b.Instrs {
+			if r, ok := ins.(*ssa.Return); ok && idx < len(r.Results) {
+				outs = append(outs, traceIn(r.Results[idx], depth+1, inner))
+			}
+		}
+	}
+	if len(outs) == 0 {
+		return target{}, false
+	}
+	return mergeTargets(outs), true
+}
+
 // trace walks an address, slice or map value back to where it comes from.
-func trace(v ssa.Value, depth int) target {
+func trace(v ssa.Value, depth int) target { return traceIn(v, depth, nil) }
+
+func traceIn(v ssa.Value, depth int, ctx *callCtx) target {
 	if depth > 40 {
 		return target{root: "<deep>"}
 	}
@@ -344,7 +404,7 @@ func trace(v ssa.Value, depth int) target {
 	case *ssa.Const:
 		return target{local: true}
 	case *ssa.FieldAddr:
-		tg := trace(t.X, depth+1)
+		tg := traceIn(t.X, depth+1, ctx)
 		if n := structNamed(t.X.Type()); n != nil {
 			tg.containers = append(tg.containers, n)
 		}
@@ -353,7 +413,7 @@ func trace(v ssa.Value, depth int) target {
 		}
 		return tg
 	case *ssa.Field:
-		tg := trace(t.X, depth+1)
+		tg := traceIn(t.X, depth+1, ctx)
 		if n, ok := t.X.Type().(*types.Named); ok {
 			tg.containers = append(tg.containers, n)
 		}
@@ -362,22 +422,29 @@ func trace(v ssa.Value, depth int) target {
 		}
 		return tg
 	case *ssa.IndexAddr:
-		return trace(t.X, depth+1)
+		return traceIn(t.X, depth+1, ctx)
 	case *ssa.Slice:
-		return trace(t.X, depth+1)
+		return traceIn(t.X, depth+1, ctx)
 	case *ssa.UnOp:
 		if t.Op == token.MUL {
 			// a pointer / slice / map loaded from memory: what it refers to is not the function's
 			// own even if the variable holding it is
-			tg := trace(t.X, depth+1)
+			tg := traceIn(t.X, depth+1, ctx)
 			tg.local = false
 			if len(tg.containers) == 0 && tg.global == "" && tg.root == "" {
 				tg.root = "value loaded from a local variable of type " + typeStr(t.Type())
 			}
 			return tg
 		}
-		return trace(t.X, depth+1)
+		return traceIn(t.X, depth+1, ctx)
 	case *ssa.Parameter:
+		if ctx != nil && ctx.fn == t.Parent() {
+			for i, p := range ctx.fn.Params {
+				if p == t && i < len(ctx.args) {
+					return traceIn(ctx.args[i], depth+1, ctx.parent)
+				}
+			}
+		}
 		tg := target{}
 		if n := derefNamed(t.Type()); n != nil {
 			if _, isStruct := n.Underlying().(*types.Struct); isStruct {
@@ -403,7 +470,7 @@ func trace(v ssa.Value, depth int) target {
 			if e == ssa.Value(t) {
 				continue
 			}
-			x := trace(e, depth+1)
+			x := traceIn(e, depth+1, ctx)
 			res.local = res.local && x.local
 			res.containers = append(res.containers, x.containers...)
 			if x.fieldType != nil {
@@ -419,7 +486,10 @@ func trace(v ssa.Value, depth int) target {
 		return res
 	case *ssa.Call:
 		if b, ok := t.Call.Value.(*ssa.Builtin); ok && b.Name() == "append" {
-			return trace(t.Call.Args[0], depth+1)
+			return traceIn(t.Call.Args[0], depth+1, ctx)
+		}
+		if tg, ok := traceResult(t, 0, depth, ctx); ok {
+			return tg
 		}
 		tg := target{}
 		if n := derefNamed(t.Type()); n != nil {
@@ -429,13 +499,18 @@ func trace(v ssa.Value, depth int) target {
 		tg.root = "result of a call, of type " + typeStr(t.Type())
 		return tg
 	case *ssa.Extract:
+		if c, ok := t.Tuple.(*ssa.Call); ok {
+			if tg, ok := traceResult(c, t.Index, depth, ctx); ok {
+				return tg
+			}
+		}
 		return target{root: "result of a call, of type " + typeStr(t.Type())}
 	case *ssa.ChangeType:
-		return trace(t.X, depth+1)
+		return traceIn(t.X, depth+1, ctx)
 	case *ssa.Convert:
-		return trace(t.X, depth+1)
+		return traceIn(t.X, depth+1, ctx)
 	case *ssa.Lookup:
-		return trace(t.X, depth+1)
+		return traceIn(t.X, depth+1, ctx)
 	case *ssa.TypeAssert:
 		tg := target{}
 		if n := derefNamed(t.Type()); n != nil {
@@ -655,7 +730,14 @@ func emitState(w *world, o *out) {
 				}
 				if rc := f.Signature.Recv(); rc != nil && optionIface != nil {
 					if it, ok := optionIface.Type().Underlying().(*types.Interface); ok && types.Implements(rc.Type(), it) {
+						// the interface's own (unexported, single) method is named by role, any other
+						// method of an implementation by name
 						who = "method " + f.Name() + " of an EvaluatorOption implementation"
+						for i := 0; i < it.NumMethods(); i++ {
+							if it.Method(i).Name() == f.Name() {
+								who = "the EvaluatorOption method of an implementation"
+							}
+						}
 					}
 				}
 				for _, wr := range writesOf(f) {
